@@ -208,7 +208,7 @@ def run_many(fn, arglist, workers=16, timeout=600, wall_s=None, on_result=None,
                         except Exception:   # noqa
                             res = {'harness_error': 'undecodable record'}
                         finish(w, res)
-            elif now - w.start > timeout:
+            elif now - w.start > timeout * max(1.0, _load_factor()):
                 tb = ''
                 try:
                     os.kill(w.pid, signal.SIGUSR1)
@@ -224,6 +224,16 @@ def run_many(fn, arglist, workers=16, timeout=600, wall_s=None, on_result=None,
 
 
 # ---------------------------------------------------------------------------------
+def _load_factor():
+    """the per-run safety net is a wall-clock limit sized for an idle 16-core machine; when
+    other work shares the machine (several checks at once) it is stretched by the load
+    per core, so that a slow machine is never mistaken for a hung run"""
+    try:
+        return os.getloadavg()[0] / float(os.cpu_count() or 1)
+    except OSError:
+        return 1.0
+
+
 def load_known(pid):
     try:
         with open(KNOWN_FILE) as f:
@@ -353,8 +363,12 @@ def run_check(check, tier, seed, out=sys.stdout):
         # a listed finding is a narrow class with a measured base rate; the same signature
         # occurring an order of magnitude more often is a different violation
         mr = kh['entry'].get('max_rate')
+        # (max_rate is about ten times the measured base rate; the allowance adds four standard
+        # deviations of a Poisson count at that rate, so that a batch of any size cannot trip
+        # the guard by chance)
+        lam = (mr or 0) * max(1, agg['runs'])
         if mr and kh['count'] >= kh['entry'].get('min_count', 4) and \
-                kh['count'] > mr * max(1, agg['runs']):
+                kh['count'] > lam + 4 * lam ** 0.5 + 2:
             sig0 = sorted(kh['sigs'])[0]
             ent = agg['violations'][sig0]
             v0 = dict(ent['first'][1])
@@ -387,7 +401,7 @@ def run_check(check, tier, seed, out=sys.stdout):
         exit_code = 2 if exit_code == 0 else exit_code
         for rs, he in agg['harness_errors'][:3]:
             lines.append('HARNESS-ERROR run_seed=%s\n%s' % (rs, he))
-    if agg['runs'] and agg['timeouts'] > max(3, 0.05 * agg['runs']):
+    if agg['runs'] and agg['timeouts'] > max(3, 0.25 * agg['runs']):
         lines.append('HARNESS-ERROR: %d of %d runs hit the wall-clock safety net' % (
             agg['timeouts'], agg['runs']))
         exit_code = 2 if exit_code == 0 else exit_code
